@@ -81,10 +81,14 @@ OnInvoke(pc, pm, ev) ==
 Expected(pc, pm, v) ==
     LET value   == v.kind = "ret" \/ (v.kind = "outcome" /\ v.ok)
         aborted == v.kind = "abort" \/ (v.kind = "outcome" /\ ~v.ok /\ v.stop = "ABORTED")
-        nestedX == pm.lastout \in {"nested", "circuitopen"} /\ v.kind \in {"cancel", "outcome"}
-        cancel  == v.kind = "cancel" /\ ~nestedX
+        \* a RetryExhaustedError raised by the operation (nested policy) is a failure of class
+        \* last_class-or-UNKNOWN on every path; a nested CircuitOpenError is left open by the statement
+        nested  == pm.lastout = "nested" /\ v.kind \in {"cancel", "outcome"}
+        nestedX == pm.lastout = "circuitopen" /\ v.kind \in {"cancel", "outcome"}
+        cancel  == v.kind = "cancel" /\ ~nestedX /\ ~nested
         fclass  == IF pc.retry THEN (IF pm.m.lk = "-" THEN "UNKNOWN" ELSE pm.m.lk) ELSE pm.lastk
     IN  IF value THEN {<<"ok", "-">>}
+        ELSE IF nested THEN {<<"fail", "UNKNOWN">>}
         ELSE IF nestedX THEN {<<"cancel", "-">>} \cup {<<"fail", k>> : k \in ClassSet}
         ELSE IF aborted \/ cancel THEN {<<"cancel", "-">>}
         ELSE {<<"fail", fclass>>}
